@@ -291,7 +291,8 @@ func MaxAlong(y tensor.Tensor, x tensor.Tensor, dim int) (gctx *GradContext) {
 						return
 					}
 
-					gx, err := x.Eq(yb)
+					// the maximum itself, exactly: Eq would also select elements within its tolerance of it
+					gx, err := x.Ge(yb)
 					if err != nil {
 						return
 					}
@@ -327,7 +328,8 @@ func MinAlong(y tensor.Tensor, x tensor.Tensor, dim int) (gctx *GradContext) {
 						return
 					}
 
-					gx, err := x.Eq(yb)
+					// the minimum itself, exactly: Eq would also select elements within its tolerance of it
+					gx, err := x.Le(yb)
 					if err != nil {
 						return
 					}
@@ -754,17 +756,23 @@ func ElMax(y tensor.Tensor, a tensor.Tensor, b tensor.Tensor) (gctx *GradContext
 				gradFn: func() (o tensor.Tensor, err error) {
 					gy := y.Gradient()
 
-					ga, err := y.Eq(a)
+					ga, err := a.Ge(b)
 					if err != nil {
 						return
 					}
 
-					eq, err := a.Eq(b)
+					// an exact tie shares the gradient; Eq would also call operands within its tolerance tied
+					tie, err := b.Ge(a)
 					if err != nil {
 						return
 					}
 
-					ga, err = ga.Sub(eq.Scale(0.5))
+					tie, err = ga.Mul(tie)
+					if err != nil {
+						return
+					}
+
+					ga, err = ga.Sub(tie.Scale(0.5))
 					if err != nil {
 						return
 					}
@@ -777,17 +785,23 @@ func ElMax(y tensor.Tensor, a tensor.Tensor, b tensor.Tensor) (gctx *GradContext
 				gradFn: func() (o tensor.Tensor, err error) {
 					gy := y.Gradient()
 
-					gb, err := y.Eq(b)
+					gb, err := b.Ge(a)
 					if err != nil {
 						return
 					}
 
-					eq, err := b.Eq(a)
+					// an exact tie shares the gradient; Eq would also call operands within its tolerance tied
+					tie, err := a.Ge(b)
 					if err != nil {
 						return
 					}
 
-					gb, err = gb.Sub(eq.Scale(0.5))
+					tie, err = gb.Mul(tie)
+					if err != nil {
+						return
+					}
+
+					gb, err = gb.Sub(tie.Scale(0.5))
 					if err != nil {
 						return
 					}
@@ -815,17 +829,23 @@ func ElMin(y tensor.Tensor, a tensor.Tensor, b tensor.Tensor) (gctx *GradContext
 				gradFn: func() (o tensor.Tensor, err error) {
 					gy := y.Gradient()
 
-					ga, err := y.Eq(a)
+					ga, err := a.Le(b)
 					if err != nil {
 						return
 					}
 
-					eq, err := a.Eq(b)
+					// an exact tie shares the gradient; Eq would also call operands within its tolerance tied
+					tie, err := b.Le(a)
 					if err != nil {
 						return
 					}
 
-					ga, err = ga.Sub(eq.Scale(0.5))
+					tie, err = ga.Mul(tie)
+					if err != nil {
+						return
+					}
+
+					ga, err = ga.Sub(tie.Scale(0.5))
 					if err != nil {
 						return
 					}
@@ -838,17 +858,23 @@ func ElMin(y tensor.Tensor, a tensor.Tensor, b tensor.Tensor) (gctx *GradContext
 				gradFn: func() (o tensor.Tensor, err error) {
 					gy := y.Gradient()
 
-					gb, err := y.Eq(b)
+					gb, err := b.Le(a)
 					if err != nil {
 						return
 					}
 
-					eq, err := b.Eq(a)
+					// an exact tie shares the gradient; Eq would also call operands within its tolerance tied
+					tie, err := a.Le(b)
 					if err != nil {
 						return
 					}
 
-					gb, err = gb.Sub(eq.Scale(0.5))
+					tie, err = gb.Mul(tie)
+					if err != nil {
+						return
+					}
+
+					gb, err = gb.Sub(tie.Scale(0.5))
 					if err != nil {
 						return
 					}
